@@ -11,6 +11,7 @@ TRUSTED_COMMON = [
 BUILDERS = {
     "verifh": lambda: V.build_harness("verifh"),
     "verifs": V.build_sched_harness,
+    "verifr": V.build_race_harness,
 }
 
 EXTRA_STAGES = {}
@@ -43,11 +44,20 @@ HUB_TRUST = ["critical sections under the transport lock and LocalSubscriber met
              "schedule-steered stages where present, the tie to the code of this stage is sequential",
              "bbolt: atomic durable write transactions, snapshot reads, ordered cursor", "net/http, encoding/json, Prometheus client"]
 
+TRANS_STAGE = {"kind": "cases", "name": "transport-schedules", "driver": "TRANS", "binary": "verifs", "n": {"quick": 20, "thorough": 300}}
+TRANS_RULE = (" transport-schedules: 2-4 goroutines calling Dispatch / AddSubscriber(+Disconnect/RemoveSubscriber) / Close on a real Bolt or local transport whose "
+              "current sources are instrumented at check time (yield before every statement that calls out or touches a channel, locks routed through the scheduler, "
+              "buffer capacity 2), with an initial history, optional restart before, Last-Event-ID none/earliest/stored/unknown: every schedule with <= 2 preemptions "
+              "(<= 250 runs per scenario; 3 / 3000 in thorough) plus random schedules; every distinct outcome (per-publish result and logical time-stamps, per-subscriber "
+              "delivered ids / closed, history file read back with bbolt, panic / all-blocked) is judged in Coq by Model/TransCases.v: matching only, no duplicate, history "
+              "order, replay = exactly what follows the requested id (gap-free prefix if cut), real-time order, mandatory/forbidden deliveries by time-stamps, Close semantics.")
+RACE_STAGE = {"kind": "race", "name": "race-stress", "dur": {"quick": "3s", "thorough": "60s"}}
+
 PROPS = {
-    "C01": {"stages": [HUB_STAGE], "rule": HUB_RULE, "trusted": HUB_TRUST + ["matching itself: C05/C11; token verification: C03"], "assumptions": []},
+    "C01": {"binaries": ["verifh", "verifs"], "stages": [HUB_STAGE, TRANS_STAGE], "rule": HUB_RULE + TRANS_RULE, "trusted": HUB_TRUST + ["matching itself: C05/C11; token verification: C03"], "assumptions": []},
     "C09": {"stages": [HUB_STAGE], "rule": HUB_RULE + " (kill -9 crash points are not exercised by this stage: restart here is a graceful stop)",
             "trusted": HUB_TRUST + ["process death and power loss: bbolt's commit protocol is trusted, not exercised"], "assumptions": []},
-    "C15": {"stages": [HUB_STAGE], "rule": HUB_RULE, "trusted": HUB_TRUST, "assumptions": []},
+    "C15": {"binaries": ["verifh", "verifs"], "stages": [HUB_STAGE, TRANS_STAGE], "rule": HUB_RULE + TRANS_RULE, "trusted": HUB_TRUST, "assumptions": []},
     "C20": {"stages": [HUB_STAGE], "rule": HUB_RULE, "trusted": HUB_TRUST, "assumptions": []},
     "C13": {
         "binaries": ["verifh", "verifs"],
@@ -57,10 +67,10 @@ PROPS = {
         "assumptions": ["Ready is called once per subscriber (AddSubscriber does)"],
     },
     "C14": {
-        "binaries": ["verifh", "verifs"],
-        "stages": SUB_STAGES,
-        "rule": SUB_RULE,
-        "trusted": SUB_TRUST + ["skipfilter / roaring internals and the transport locks are not in this transition system (see C05, and the -race stress stage when built)"],
+        "binaries": ["verifh", "verifs", "verifr"],
+        "stages": SUB_STAGES + [TRANS_STAGE, RACE_STAGE],
+        "rule": SUB_RULE + TRANS_RULE + " race-stress: unsteered concurrent use of both transports' public API under the Go race detector (supporting search).",
+        "trusted": SUB_TRUST + ["skipfilter / roaring internals and the transport locks are not in this transition system: they are exercised by the transport-schedules and race-stress stages"],
         "assumptions": ["Ready is called once per subscriber (AddSubscriber does)"],
     },
     "C02": {
